@@ -145,9 +145,16 @@ Definition ok_flv (reference observed : list tag) : bool := list_eqb tag_eqb (fl
 (* ---------------------------------------------------------------- C03: release, as observed from outside
    a snapshot: consumers on the stream, active rtsp / flv / wsp connections (relative to the values
    before the first attach), and per client whether its connection has ended *)
-Record snap := { sn_cc : Z; sn_rtsp : Z; sn_flv : Z; sn_wsp : Z; sn_closed : list bool }.
+Record snap := {
+  sn_cc : Z;               (* consumers on all streams of the path together *)
+  sn_rtsp : Z; sn_flv : Z; sn_wsp : Z;
+  sn_closed : list bool;
+  sn_gens : list Z;        (* consumers per stream generation: a new publisher registering the path retires the
+                              previous stream, which lives on while it has consumers *)
+  sn_of : list nat         (* ghost: the generation each client attached to *)
+}.
 
-Inductive tev := TPublish | TAttach (i : nat) | TStop (i : nat) | TEnd.
+Inductive tev := TPublish | TAttach (i : nat) | TStop (i : nat) | TEnd | TReplace.
 
 (* consumers a client of this transport adds to the stream (the C01 stream pairs every FLV client
    with an in-process reference consumer: [refs]) *)
@@ -165,23 +172,34 @@ Fixpoint set_nth {A} (n : nat) (x : A) (l : list A) : list A :=
   | h :: t, S n' => h :: set_nth n' x t
   end.
 
-Definition snap_add (refs : bool) (sign : Z) (kind : Z) (s : snap) (closed : list bool) : snap :=
+Definition add_nth (n : nat) (d : Z) (l : list Z) : list Z := set_nth n (nth n l 0 + d) l.
+
+Definition snap_add (refs : bool) (sign : Z) (kind : Z) (gen : nat) (s : snap) (closed : list bool) (of : list nat) : snap :=
   {| sn_cc := sn_cc s + sign * cons_weight refs kind;
      sn_rtsp := sn_rtsp s + sign * b2z (is_rtsp_kind kind);
      sn_flv := sn_flv s + sign * b2z (is_flv_kind kind);
      sn_wsp := sn_wsp s + sign * b2z (is_wsp_kind kind);
-     sn_closed := closed |}.
+     sn_closed := closed;
+     sn_gens := add_nth gen (sign * cons_weight refs kind) (sn_gens s);
+     sn_of := of |}.
 
-(* the specification of release: attach adds the client, stop removes exactly that client and ends
-   its connection, the end of the stream removes everybody *)
+(* the specification of release: attach adds the client to the stream registered at that moment, stop
+   removes exactly that client from ITS stream and ends its connection, a new publisher adds a stream and
+   touches nobody, the end removes everybody *)
 Definition snap_step (refs : bool) (kinds : list Z) (s : snap) (e : tev) : snap :=
   match e with
   | TPublish => s
-  | TAttach i => snap_add refs 1 (nth i kinds 0) s (sn_closed s)
+  | TAttach i =>
+      let g := pred (length (sn_gens s)) in
+      snap_add refs 1 (nth i kinds 0) g s (sn_closed s) (set_nth i g (sn_of s))
   | TStop i =>
       if nth i (sn_closed s) true then s
-      else snap_add refs (-1) (nth i kinds 0) s (set_nth i true (sn_closed s))
-  | TEnd => {| sn_cc := 0; sn_rtsp := 0; sn_flv := 0; sn_wsp := 0; sn_closed := map (fun _ => true) (sn_closed s) |}
+      else snap_add refs (-1) (nth i kinds 0) (nth i (sn_of s) O) s (set_nth i true (sn_closed s)) (sn_of s)
+  | TReplace =>
+      {| sn_cc := sn_cc s; sn_rtsp := sn_rtsp s; sn_flv := sn_flv s; sn_wsp := sn_wsp s;
+         sn_closed := sn_closed s; sn_gens := sn_gens s ++ [0]; sn_of := sn_of s |}
+  | TEnd => {| sn_cc := 0; sn_rtsp := 0; sn_flv := 0; sn_wsp := 0; sn_closed := map (fun _ => true) (sn_closed s);
+               sn_gens := map (fun _ => 0) (sn_gens s); sn_of := sn_of s |}
   end.
 
 Fixpoint snap_run (refs : bool) (kinds : list Z) (s : snap) (es : list tev) : list snap :=
@@ -191,11 +209,12 @@ Fixpoint snap_run (refs : bool) (kinds : list Z) (s : snap) (es : list tev) : li
   end.
 
 Definition snap0 (kinds : list Z) : snap :=
-  {| sn_cc := 0; sn_rtsp := 0; sn_flv := 0; sn_wsp := 0; sn_closed := map (fun _ => false) kinds |}.
+  {| sn_cc := 0; sn_rtsp := 0; sn_flv := 0; sn_wsp := 0; sn_closed := map (fun _ => false) kinds;
+     sn_gens := [0]; sn_of := map (fun _ => O) kinds |}.
 
 Definition snap_eqb (a b : snap) : bool :=
   (sn_cc a =? sn_cc b) && (sn_rtsp a =? sn_rtsp b) && (sn_flv a =? sn_flv b) && (sn_wsp a =? sn_wsp b)
-  && list_eqb Bool.eqb (sn_closed a) (sn_closed b).
+  && list_eqb Bool.eqb (sn_closed a) (sn_closed b) && list_eqb Z.eqb (sn_gens a) (sn_gens b).
 
 Definition ok_release (refs : bool) (kinds : list Z) (es : list tev) (observed : list snap) : bool :=
   list_eqb snap_eqb (snap_run refs kinds (snap0 kinds) es) observed.
